@@ -186,6 +186,8 @@ func (u *upstream) inBackoff() bool {
 	return false
 }
 
+var pick int
+
 func runSchedule(t *testing.T, tw *trace.Writer, c *scase, idx int, res *vh.Result) {
 	defer func() {
 		// goroutines that stay blocked for ever make the bubble panic on exit; the trace written so far is still judged
@@ -220,7 +222,7 @@ func runSchedule(t *testing.T, tw *trace.Writer, c *scase, idx int, res *vh.Resu
 		}
 		var fwd *statsd.HttpForwarderHandlerV2
 		// the body is sent as it is, or compressed (the default configuration) -- which of the two says nothing about what it holds
-		compress, ctype := idx%2 == 1, []string{"zlib", "lz4"}[(idx/2)%2]
+		compress, ctype := pick%2 == 1, []string{"zlib", "lz4"}[(pick/2)%2]
 		if compress {
 			res.Hit("compressed-bodies:" + ctype)
 		}
@@ -397,6 +399,7 @@ func TestSchedules(t *testing.T) {
 		if len(c.Sched) < 9 && (idx+int(seed))%every != 0 {
 			return nil
 		}
+		pick++ // choices made by position go by the cases actually run, so that they do not alias with the seed-dependent selection
 		// the adv op carries its amount in n
 		for i := range c.Sched {
 			if c.Sched[i].Op == "adv" && c.Sched[i].N == 0 {
